@@ -67,6 +67,8 @@ pub fn execute_program(
         ))?,
     };
     let stack = vec![0u8; ebpf::STACK_SIZE];
+    #[cfg(rbpf_verif)]
+    crate::verif_hooks::LAST_STACK_BASE.store(stack.as_ptr() as u64, Ordering::Relaxed);
     let mut stacks = [StackFrame::new(); MAX_CALL_DEPTH];
     let mut stack_frame_idx = 0;
 
@@ -118,6 +120,10 @@ pub fn execute_program(
     // Loop on instructions
     let mut insn_ptr: usize = 0;
     while insn_ptr * ebpf::INSN_SIZE < prog.len() {
+        #[cfg(rbpf_verif)]
+        if !crate::verif_hooks::tick() {
+            Err(Error::other("Error: instruction budget exhausted"))?;
+        }
         let insn = ebpf::get_insn(prog, insn_ptr);
         if stack_frame_idx < MAX_CALL_DEPTH
             && let Some(usage) = stack_usage.stack_usage_for_local_func(insn_ptr) {
